@@ -432,7 +432,7 @@ func init() {
 	}
 	register(&Prop{
 		ID: "C01", Cmd: "parse",
-		Rule:   "random certified grammars (1-3 nonterminals, memoized with probability 0.85, bodies over the property's combinator set biased to direct/indirect/hidden left recursion, nullable and cyclic rules) x inputs sampled from the grammar, mutated, or uniform; every second case comes from a template family of 2-3 memoized rules whose alternatives are t | N t | t N | t? N t | N N | N | eps with uniform inputs up to 5 bytes; both root.Parse and parsley.Parse observables are compared with the Lean model. Non-trivial = a memoized parser was re-entered at the same position and at least one call was answered by curtailment or the cache; distinct = distinct case text.",
+		Rule:   "random certified grammars (1-3 nonterminals, memoized with probability 0.85, bodies over the property's combinator set biased to direct/indirect/hidden left recursion, nullable and cyclic rules) x inputs sampled from the grammar, mutated, or uniform; every second case comes from a template family of 2-3 memoized rules whose alternatives are t | N t | t N | t? N t | N? t | N N | N | eps with uniform inputs up to 5 bytes; both root.Parse and parsley.Parse observables are compared with the Lean model. Non-trivial = a memoized parser was re-entered at the same position and at least one call was answered by curtailment or the cache; distinct = distinct case text.",
 		Count: quickN(8000, 80000),
 		Gen: func(rng *rand.Rand, tier string, i int) *Sexp {
 			if i%2 == 1 {
